@@ -174,7 +174,7 @@ fn proj(q: &Query, a: &c04::Answer) -> String {
 
 fn brief(s: &str) -> String {
     if s.len() > 900 {
-        format!("{}…[{} bytes]", &s[..900], s.len())
+        format!("{}…[{} bytes]", s.chars().take(900).collect::<String>(), s.len())
     } else {
         s.to_string()
     }
